@@ -394,6 +394,17 @@ def step (line : String) : String :=
       else do
         let b ← unhex payload
         pure (okS (nodeS (Bip32.parseBytes isPrv t b)))
+  -- parse with the class asked for (also the other class than the key's own kind), then derive along a path
+  | ["xk_parse", cls, t, form, payload, path] => orBad do
+      let isPrv ← if cls = "P" then some true else if cls = "p" then some false else none
+      let t ← unbool t
+      let ls ← unlist unnat path
+      if form = "s" then do
+        let s ← unstr payload
+        pure (optS nodeS ((Bip32.parseStr P0 isPrv t s).bind fun nd => Bip32.derivePath P0 nd ls))
+      else do
+        let b ← unhex payload
+        pure (optS nodeS (Bip32.derivePath P0 (Bip32.parseBytes isPrv t b) ls))
   | ["node_eq", a, b] => orBad do
       let a ← unnode a; let b ← unnode b
       pure (okS (boolS (Bip32.nodeEq a b)))
